@@ -514,25 +514,22 @@ def r9_solve_period(R) -> None:
     call = calls[0].ast.value
     R.count_calls()
     forwarding_identity(R, q, call, OPTIONS, where=f'{fi.module.relpath}:{call.lineno}')
-    # first positional argument: t = self._locate_period_in_span(period)
-    lf = LocalFlow(cfg, fi.params())
+    # first positional argument: the located position of `period` (however many locals it passes through)
+    from rules.common import Fn
+    f = Fn(R, q)
+    cn = [n for n in f.cfg.nodes if n.kind == 'stmt' and isinstance(n.ast, ast.Return) and is_self_call(n.ast.value, 'solve_t')]
     a0 = call.args[0] if call.args else None
-    ok = False
-    if isinstance(a0, ast.Name):
-        vals = lf.values_reaching(calls[0].id, a0.id)
-        ok = len(vals) == 1 and vals[0][1] is not None and is_self_call(vals[0][1], '_locate_period_in_span') \
-            and text(vals[0][1].args[0]) == 'period'
+    LOC = 'self._locate_period_in_span(period)'
+    ok = bool(cn) and a0 is not None and f.etext(cn[0].id, cn[0].ast.value.args[0]) == LOC
     R.check(ok, q, 'position-arg', 'the position passed to solve_t is _locate_period_in_span(period)',
             f'first argument of solve_t is `{text(a0)}`, not the located position of `period`',
             where=f'{fi.module.relpath}:{call.lineno}')
     # KeyError rejection of non-int positions: the call runs only for an int position, anything else raises KeyError
-    from rules.common import Fn
-    f = Fn(R, q)
-    cn = [n for n in f.cfg.nodes if n.kind == 'stmt' and isinstance(n.ast, ast.Return) and is_self_call(n.ast.value, 'solve_t')]
     good = False
-    if cn and isinstance(a0, ast.Name):
-        guarded = f.holds(cn[0].id, f'isinstance({a0.id}, int)')
-        ks = [k for k in f.raises('KeyError') if f.holds(k.id, f'isinstance({a0.id}, int)', False)]
+    if cn and ok:
+        fact_ = f'isinstance({LOC}, int)'
+        guarded = f.xholds(cn[0].id, fact_)
+        ks = [k for k in f.raises('KeyError') if f.xholds(k.id, fact_, False)]
         good = guarded and bool(ks)
     R.check(good, q, 'keyerror-guard', 'a non-int position is rejected with KeyError before solving',
             'the solve_t call is not confined to `isinstance(t, int)` with KeyError raised otherwise', where=fi.where)
